@@ -746,7 +746,7 @@ func (m *monC05) AfterTx(w *World, tx *TxCtx) {
 		if L.Sign() > 0 {
 			w.Probe("c05.non-module-tx-by-locked-payer")
 		}
-	case M && tx.Spec.Granter == 0 && !tx.Spec.Replay:
+	case M && len(tx.Granter) == 0 && !tx.Spec.Replay:
 		if L.Sign() > 0 {
 			w.Probe("c05.module-tx-by-locked-payer")
 		}
